@@ -476,6 +476,8 @@ impl<'s, const M: usize> Exec<'s, M> {
             }
             if self.held.len() > 1 {
                 self.violate("C06", "more-than-one-chunk-after-reset", "", format!("{} of {} kept", self.held.len(), before.len()));
+                // C03: reset gives back "all chunks except the one kept"
+                self.violate("C03", "reset-did-not-return-all-but-one-chunk", "", format!("{} of {} kept", self.held.len(), before.len()));
             } else if self.held.is_empty() {
                 // allowed by the statement ("at most one"), but then nothing may be claimed
                 self.stats.hit("reset_kept_nothing");
@@ -819,6 +821,7 @@ impl<'s, const M: usize> Exec<'s, M> {
             Op::FillCopy { try_, ety, len, seed } => with_ety!(*ety, T => self.op_fill_copy::<T>(*try_, *len, *seed)),
             Op::FillClone { try_, len, seed } => self.op_fill_clone(*try_, *len, *seed),
             Op::FillDefault { try_, tracked, len } => self.op_fill_default(*try_, *tracked, *len),
+            Op::HugeLen { entry, try_, len } => self.op_huge_len(*entry, *try_, *len),
             Op::FillIter { try_, ety, len, lie, seed } => with_ety!(*ety, T => self.op_fill_iter::<T>(*try_, *len, *lie, *seed)),
             Op::Str { try_, len, seed } => self.op_str(*try_, *len, *seed),
             Op::TryWith { try_, ty, ety, fail, inner, seed } => match ety {
